@@ -1,5 +1,6 @@
 #!/usr/bin/env python3
-"""tools/add_findings.py <ID> <what>  — append every violation currently in replays/<ID>/ (latest run) as a known finding.
+"""tools/add_findings.py <ID> <what> <replay files...>  — append the violations of the given replay files as known findings
+(replays/<ID>/ accumulates files from every run, including runs against seeded changes: never glob it).
 Only to be used after each witness has been classified as a genuine defect that cannot be repaired with a small fix."""
 import json,glob,sys
 pid,what=sys.argv[1],sys.argv[2]
@@ -7,7 +8,7 @@ p='/verif/known_findings.json'
 d=json.load(open(p))
 have={(e.get('property'),e.get('failure_class'),e.get('key'),e.get('witness')) for e in d['entries'] if e['kind']=='finding'}
 n=0
-for f in sorted(glob.glob(f'/verif/replays/{pid}/*.json')):
+for f in sys.argv[3:]:
     v=json.load(open(f)); wf=v['witness_failure']
     k=(pid,wf['class'],wf['key'],v['witness'])
     if k in have: continue
